@@ -15,12 +15,26 @@ import (
 type c08bias struct {
 	name  string
 	calls *[]string
+	trace *c08trace
+}
+
+// c08trace records the states the stand-in biases received and produced and the state the method evaluated
+type c08trace struct {
+	original []*model.DecisionMakingParams
+	received []*model.DecisionMakingParams
+	produced []*model.DecisionMakingParams
 }
 
 func (b *c08bias) Identifier() string { return b.name }
 func (b *c08bias) Apply(original, current *model.DecisionMakingParams, props *model.BiasProps, listener *model.BiasListener) *model.BiasedResult {
 	*b.calls = append(*b.calls, b.name)
-	return &model.BiasedResult{DMP: current, Props: "fired:" + b.name}
+	next := *current // every firing bias hands on a state of its own
+	if b.trace != nil {
+		b.trace.original = append(b.trace.original, original)
+		b.trace.received = append(b.trace.received, current)
+		b.trace.produced = append(b.trace.produced, &next)
+	}
+	return &model.BiasedResult{DMP: &next, Props: "fired:" + b.name}
 }
 
 type c08entry struct {
@@ -48,15 +62,23 @@ func c08request(entries []c08entry) *model.DecisionMaker {
 }
 
 func c08run(dm *model.DecisionMaker, calls *[]string) (*model.DecisionMakerChoice, bool) {
+	c, p, _, _ := c08runTraced(dm, calls)
+	return c, p
+}
+
+func c08runTraced(dm *model.DecisionMaker, calls *[]string) (*model.DecisionMakerChoice, bool, *c08trace, *Recorder) {
+	tr := &c08trace{}
+	rec := &Recorder{}
+	fs, ls, _ := Registries(rec)
 	bm := model.BiasMap{}
 	for _, n := range []string{"x", "y", "z", "w"} {
-		bm[n] = &c08bias{name: n, calls: calls}
+		bm[n] = &c08bias{name: n, calls: calls, trace: tr}
 	}
 	var choice *model.DecisionMakerChoice
 	panicked := rt.Panics(func() {
-		choice = dm.MakeDecision(funcs, biasListeners, &bm, rt.Generators)
+		choice = dm.MakeDecision(fs, ls, &bm, rt.Generators)
 	})
-	return choice, panicked
+	return choice, panicked, tr, rec
 }
 
 //verif:harness HC08_switches mode=FP reach=fired,skipped,disabled,default-probability,unknown-disabled
@@ -88,7 +110,7 @@ func HC08_switches() {
 	}
 	var calls []string
 	dm := c08request(entries)
-	choice, panicked := c08run(dm, &calls)
+	choice, panicked, tr, rec := c08runTraced(dm, &calls)
 	rt.Assert("C08.answered", !panicked)
 	if panicked {
 		return
@@ -140,6 +162,19 @@ func HC08_switches() {
 		if i < len(calls) {
 			rt.Assert("C08.applied-in-order", calls[i] == expectedCalls[i])
 		}
+	}
+	// a bias that does not fire changes nothing: every firing bias receives the state the previous firing bias
+	// handed on (the first one the unbiased state), all see the same original, the method evaluates the last state
+	for i := range tr.received {
+		rt.Assert("C08.same-original-for-every-bias", tr.original[i] == tr.original[0])
+		if i == 0 {
+			rt.Assert("C08.first-firing-bias-receives-the-unbiased-state", tr.received[0] == tr.original[0])
+		} else {
+			rt.Assert("C08.not-firing-changes-nothing.state-threaded", tr.received[i] == tr.produced[i-1])
+		}
+	}
+	if n := len(tr.produced); n > 0 && rec.Evaluated != nil {
+		rt.Assert("C08.not-firing-changes-nothing.method-evaluates-last-state", rec.Evaluated == tr.produced[n-1])
 	}
 	// a disabled entry is equivalent to leaving it out
 	var calls2 []string
